@@ -1383,6 +1383,23 @@ def concrete_eval(ctx: Ctx, f: FunctionInfo, e: Optional[ast.AST], env: Dict[str
         if isinstance(a, (int, float)) and isinstance(b, (int, float)) and not isinstance(a, bool) and not isinstance(b, bool):
             return a - b
         return UNKNOWN
+    if isinstance(e, ast.BinOp) and isinstance(e.op, (ast.Mult, ast.FloorDiv, ast.Div, ast.Pow, ast.LShift)):
+        a, b = ev(e.left), ev(e.right)
+        if isinstance(a, (int, float)) and isinstance(b, (int, float)) and not isinstance(a, bool) and not isinstance(b, bool):
+            try:
+                if isinstance(e.op, ast.Mult):
+                    return a * b
+                if isinstance(e.op, ast.FloorDiv):
+                    return a // b
+                if isinstance(e.op, ast.Div):
+                    return a / b
+                if isinstance(e.op, ast.Pow) and isinstance(b, int) and abs(b) <= 64:
+                    return a ** b
+                if isinstance(e.op, ast.LShift) and isinstance(a, int) and isinstance(b, int) and 0 <= b <= 64:
+                    return a << b
+            except Exception:
+                return UNKNOWN
+        return UNKNOWN
     if isinstance(e, ast.Call) and isinstance(e.func, ast.Name) and e.func.id == "range" and 1 <= len(e.args) <= 3 and not e.keywords:
         rv = [ev(x) for x in e.args]
         if all(isinstance(x, int) and not isinstance(x, bool) for x in rv):
@@ -1624,7 +1641,7 @@ def concrete_eval(ctx: Ctx, f: FunctionInfo, e: Optional[ast.AST], env: Dict[str
                 t = cal.funcs[0]
                 on_self = isinstance(fn, ast.Attribute) and isinstance(fn.value, ast.Name) and fn.value.id == (f.self_name() or "\x00")
                 pnames = [p_.name for p_ in t.params if not (t.cls is not None and not t.is_static and p_ is t.params[0])]
-                inner: Dict[str, object] = {k_: v_ for k_, v_ in env.items() if isinstance(k_, str) and k_.endswith("()")}  # scenario hooks
+                inner: Dict[str, object] = {k_: v_ for k_, v_ in env.items() if isinstance(k_, str) and "()" in k_}  # scenario hooks
                 if on_self and t.self_name():
                     for k_, v_ in env.items():
                         if isinstance(k_, str) and k_.startswith((f.self_name() or "self") + "."):
